@@ -1290,6 +1290,24 @@ func (s *senderWorld) contradict(kind int) *Violation {
 	return runOver
 }
 
+// lastSendable: the last block <= target whose events a certificate can carry under the run's configuration
+// (with "one bridge per PP certificate" a tail of claim-only blocks cannot be sent until a bridge follows).
+func (s *senderWorld) lastSendable(target uint64) uint64 {
+	last := uint64(0)
+	for _, b := range s.l2m.Blocks {
+		if b.Num > target {
+			continue
+		}
+		for _, e := range b.Events {
+			if s.cfg["one_bridge"] == 1 && s.cfg["fep"] == 0 && e.(bridgesync.Event).Bridge == nil {
+				continue
+			}
+			last = b.Num
+		}
+	}
+	return last
+}
+
 // reviveIfExited restarts the node when its process exited at start-up (deliberate panic on a
 // storage error while checking the initial status): what a process supervisor does.
 func (s *senderWorld) reviveIfExited() *Violation {
@@ -1424,6 +1442,16 @@ func (s *senderWorld) drain(syncL1 func(uint64) *Violation, addL2 func(uint64) *
 				return nil
 			}
 			return &Violation{Oracle: "recovery", Sig: sig, Detail: fmt.Sprintf("after restart the node never completes its reconciliation with the Agglayer (status %q, %d epoch ticks, faults stopped): last error: %.400s; Agglayer: %d settled, latest certificate status %s", info.AggsenderStatus.Status, ticks, info.AggsenderStatus.LastError, len(s.ag.Settled), st)}
+		}
+		// C17: a range that reaches beyond the configured last L2 block is cut to end at that block; a node that
+		// instead sends nothing for the permitted blocks has cut it to an empty result. (Runs with a size limit are
+		// left out: the known size-limit stall, see DESIGN 14.4 observations.)
+		if m := uint64(s.cfg["max_l2_block"]); m > 0 && s.cfg["max_cert_size"] == 0 && s.ag.open() == nil &&
+			(s.ag.Latest == nil || s.ag.Latest.Status != agInError) && s.l2m.LastBlock() > m && lastTo(s.ag) < s.lastSendable(target) {
+			s.fail("cut", "c17/permitted-blocks-never-certified", "the configured last L2 block is %d and blocks up to %d are synced, but the certificates end at block %d: the events of blocks %d..%d (last one with events: %d) are never certified although the node is healthy and every verdict was Settled (%d epoch ticks)", m, s.l2m.LastBlock(), lastTo(s.ag), lastTo(s.ag)+1, target, lastEvent, ticks)
+			if s.viol != nil {
+				return s.viol
+			}
 		}
 		// no liveness clause in C02/C03/...: a stall of a healthy node is recorded as an observation only
 		rec.Stats.Inc("observation_stall_without_error")
